@@ -360,8 +360,8 @@ impl FwProp for C05 {
     }
     fn n_cases(&self, tier: Tier) -> u64 {
         match tier {
-            Tier::Quick => 120_000,
-            Tier::Thorough => 3_000_000,
+            Tier::Quick => 400_000,
+            Tier::Thorough => 8_000_000,
         }
     }
     fn generate(&self, g: &mut Gen, _tier: Tier, stats: &mut Stats) -> FwCase {
